@@ -427,6 +427,53 @@ func runC01(c *Ctx) {
 		}
 		c.Sites["C01-R8#function-frames"] = n
 		c.floor("C01-R8", 2)
+		// a parameter's default expression is evaluated in the function's own frame (it may name earlier parameters),
+		// at every binding site: never in the *Environment the caller handed in
+		nd := 0
+		for _, fn := range c.srcFuncs(interpPkg) {
+			eachInstr(fn, func(_ *ssa.BasicBlock, _ int, ins ssa.Instruction) {
+				call, ok := ins.(*ssa.Call)
+				if !ok || callName(call) != interpPath+".Interpreter.EvaluateExpression" || len(call.Call.Args) < 3 {
+					return
+				}
+				isDefault := derivesFrom(call.Call.Args[1], func(v ssa.Value) bool {
+					switch y := v.(type) {
+					case *ssa.Field:
+						if nt := namedOf(y.X.Type()); nt != nil && nt.Obj().Name() == "Field" {
+							return nt.Underlying().(*types.Struct).Field(y.Field).Name() == "Default"
+						}
+					case *ssa.UnOp:
+						return loadedFromField(y, "Field", "Default")
+					}
+					return false
+				})
+				if !isDefault {
+					return
+				}
+				buildsFrame := false
+				eachCall(fn, func(cl ssa.CallInstruction) {
+					if callName(cl) == interpPath+".NewChildEnvironment" && len(cl.Common().Args) == 1 && derivesFrom(cl.Common().Args[0], func(v ssa.Value) bool {
+						return loadedFromField(v, "Interpreter", "globalEnv") || loadedFromField(v, "LambdaClosure", "Env")
+					}) {
+						buildsFrame = true
+					}
+				})
+				if !buildsFrame {
+					return
+				}
+				nd++
+				inFrame := derivesFrom(call.Call.Args[2], func(v ssa.Value) bool {
+					cl, ok := v.(*ssa.Call)
+					return ok && callName(cl) == interpPath+".NewChildEnvironment"
+				})
+				fromCaller := derivesFrom(call.Call.Args[2], func(v ssa.Value) bool {
+					p, ok := v.(*ssa.Parameter)
+					return ok && typeIs(derefType(p.Type()), interpPath, "Environment")
+				})
+				c.ob("C01-R8", fnKey(fn)+"#parameter-default-evaluated-in-the-function-frame-"+itoa(nd), call.Pos(), inFrame && !fromCaller, "a parameter's default expression is evaluated in the environment of the calling code instead of the function's frame: `= greeting + name` cannot see the earlier parameter (undefined variable) or silently picks up a variable of the caller that happens to have the name")
+			})
+		}
+		c.Sites["C01-R8#default-evaluations"] = nd
 	}
 
 	// closest scope wins when a scope chain is flattened: a loop that walks outward (scope = scope.parent) and
@@ -488,6 +535,46 @@ func runC01(c *Ctx) {
 	}
 
 	// ---- R10 numeric text is read the same way everywhere
+	c.rule("C01-R12", "WCS: `break` and `continue` end the innermost enclosing loop, whatever other blocks (if, switch, match arms) lie between: the signal values (breakValue / continueValue) are inspected only by the loop executors - functions that run a statement list inside a Go loop. A block executor that looks at the signal and completes normally (a C-style switch) makes `break` inside a switch inside a loop a no-op for the loop: the loop runs on, to its iteration cap")
+	{
+		n := 0
+		for _, fn := range c.srcFuncs(interpPkg) {
+			k := 0
+			eachInstr(fn, func(_ *ssa.BasicBlock, _ int, ins ssa.Instruction) {
+				ta, ok := ins.(*ssa.TypeAssert)
+				if !ok {
+					return
+				}
+				nt := namedOf(derefPtr(ta.AssertedType))
+				if nt == nil || (nt.Obj().Name() != "breakValue" && nt.Obj().Name() != "continueValue") {
+					return
+				}
+				k++
+				n++
+				// a loop executor: some statement-list execution of this function sits inside a natural loop
+				isLoopExec := false
+				loops := naturalLoops(fn)
+				eachInstr(fn, func(b *ssa.BasicBlock, _ int, x ssa.Instruction) {
+					cl, ok := x.(*ssa.Call)
+					if !ok {
+						return
+					}
+					if _, _, isExec := blockExec(blockForwarder, cl); !isExec {
+						return
+					}
+					for _, lp := range loops {
+						if lp.body[b] {
+							isLoopExec = true
+						}
+					}
+				})
+				c.ob("C01-R12", fnKey(fn)+"#loop-signal-inspected-by-a-loop-"+itoa(k), ta.Pos(), isLoopExec, "a function that is not a loop executor inspects the "+nt.Obj().Name()+" signal: a block construct that swallows it (switch, match) cuts `break` / `continue` off from the loop they are meant for - a scanner that should stop at \"stop\" processes everything, a `while` with its break inside a switch spins to the iteration cap")
+			})
+		}
+		c.Sites["C01-R12#signal-inspections"] = n
+		c.floor("C01-R12", 2)
+	}
+
 	c.rule("C01-R11", "ALIAS: arrays are values to a program: `append(xs, x)` and `xs + [x]` yield a new array and leave every other array alone. In pkg/interpreter no Go append has as its base a slice obtained from a program value as it is (the result of asserting an evaluated value to []interface{}): such a slice may have spare capacity (a JSON-decoded array, an array built by an earlier append), and two results built from one base then share the slot after its end - `$ a = append(xs, 5); $ b = append(xs, 6)` leaves a == b, and a module-level list appended to by two requests is one slot written by both. The base is a fresh copy (make + copy, or append onto an empty slice)")
 	{
 		n := 0
